@@ -31,7 +31,8 @@ from .common import GeneratedSpec
 LEVEL = 'exploration'
 REPORT = ['modules', 'programs_built', 'evaluations', 'cases_run', 'encode_comparisons', 'too_small_destinations_tried',
           'decode_comparisons', 'field_checks', 'corpus_inputs', 'corpus_valid', 'corpus_hostile_accepted', 'sanitizer_reports',
-          'generator_rejected', 'generator_rejected_probe', 'probe_modules_accepted', 'gcc_warnings', 'newer_version_cases']
+          'generator_rejected', 'generator_rejected_probe', 'probe_modules_accepted', 'gcc_warnings', 'newer_version_cases',
+          'modules_with_eight_additions']
 TIMEOUT = {'quick': 2400, 'thorough': 14000}
 
 
@@ -210,6 +211,41 @@ def simplify_additions(gs, allowed):
     return count[0]
 
 
+def pad_additions(gs, n):
+    """Give one extensible SEQUENCE (without manual tags, no second root list) exactly n additions. -> bool"""
+    rnd = core.random.Random(gs.key + '/pad')
+    nodes = []
+
+    def walk(t):
+        if (t.kind == 'SEQUENCE' and t.ext is not None and not t.comps2 and len(flat_additions(t)) <= n
+                and not any(isinstance(a, Group) for a in t.ext) and not any(c.t.tag is not None for c in all_comps(t))):
+            nodes.append(t)
+        if t.kind in ('SEQUENCE', 'CHOICE'):
+            for c in all_comps(t):
+                walk(c.t)
+        elif t.kind == 'SEQUENCE OF':
+            walk(t.elem)
+    for m in gs.spec.modules:
+        for name, t in m.types():
+            walk(t)
+    if not nodes:
+        return False
+    node = rnd.choice(nodes)
+    names = set(c.name for c in all_comps(node))
+    k = 0
+    while len(flat_additions(node)) < n:
+        k += 1
+        nm = 'pad{}'.format(k)
+        if nm in names:
+            continue
+        node.ext.append(Comp(nm, rnd.choice([T('BOOLEAN'), T('INTEGER', rng=Range(0, 255))]), optional=True))
+    gs.text = spec_text(gs.spec)
+    gs.env = Env(gs.spec)
+    gs.legal = is_legal(gs.spec)
+    gs._compiled = {}
+    return True
+
+
 def run_shard_for(ctx, ID, codec):
     at = common.asn1tools()
     from asn1tools.source import c as cgen_api
@@ -228,6 +264,8 @@ def run_shard_for(ctx, ID, codec):
             if not gs.legal:
                 continue
             if codec == 'oer':
+                if (ctx.shard + i) % 5 == 0 and pad_additions(gs, 8):
+                    st.inc('modules_with_eight_additions')      # presence bitmap boundary (newer versions add the ninth)
                 if 'oer-c-extension-addition-length-code' in ctx.active:
                     # known finding (witness re-probed at the start of this run): additions of non-primitive types
                     # do not compile; keep the rest of the module testable by giving such additions a primitive type
